@@ -101,7 +101,13 @@ def check(model, tier):
             else:
                 run.fail("R01.2", "custom-unary-hook:arguments", f"the custom-operation hook is called as `{src(c)[:70]}`: it must receive (<the node's operation>, <the node's target>) - given the node itself, the documented implementation (execute the target, then filter) recurses for ever", fi=ex, node=c)
     if hooks == 0:
-        raise AnalysisError("execute() no longer hands unknown unary operations to apply_custom_unary_operation")
+        run.fail(
+            "R01.2",
+            "custom-unary-hook:dispatch",
+            "execute() no longer hands unary operations it does not know to apply_custom_unary_operation: an engine subclass that implements a custom operation through that hook "
+            "(the documented extension point) gets its target's rows back unfiltered, or an internal error, instead of its own implementation",
+            fi=ex,
+        )
     # every tree is evaluated by its own engine: foreign relations are refused up front, and the upstream tree of a
     # transfer between iteration engines is executed by the engine it lives in (its functions, its custom operations)
     guard_ok = any(
